@@ -1,5 +1,6 @@
 import Nstd.Common.Basic
 import Nstd.Args.Model
+import Nstd.Args.Kernel
 /-
   Line protocol of the Args area (property C20).  One op per line, one observation line per op.
 
@@ -17,6 +18,9 @@ import Nstd.Args.Model
     killtest <mask>                         → kill ok=1
     fds                                     → fds          (the harness adds the number of leaked descriptors)
     execfail <path|empty|blank> <streams>   → xf ok=1 pipes=<p>   (an executable that cannot be started)
+    fdtable <streams>                       → ft ok=1 out=<holders> err=<holders> in=<holders>
+         holders = none | P:<mode>@<member>,...;C:<mode>@<descriptor>,...   from the descriptor-table model
+         Kernel.openFds (the real tables are read through /proc by the harness)
     env set <name> <value> | env get <name> <default> | env all
                                             → e ok=<0|1> | e val=<hex> | e all=<name=value hex,... in Map order>
          (the variables set through the API; the harness uses names starting with NVT_ and removes them at reset)
@@ -104,6 +108,21 @@ def runOp (pe : PEnv) (form : String) (streams : Nat) (env : List (Str × Str)) 
     | some none => some "FAULT"
     | some (some e) => some (showExec pe e)
 
+/-- the descriptor-table model run on the table {0,1,2} with `pipe()` returning 3/4, 5/6, 7/8 -/
+def fdTableLine (streams : Nat) : String :=
+  let base : Kernel.FdTable := fun x => if x < 3 then some (.other x) else none
+  let r := Kernel.openFds streams ⟨3, 4, 5, 6, 7, 8⟩ base
+  let role (x : Nat) : String :=
+    if x ≠ 0 ∧ x = r.fdStdOutRead then "out" else if x ≠ 0 ∧ x = r.fdStdErrRead then "err"
+    else if x ≠ 0 ∧ x = r.fdStdInWrite then "in" else s!"fd{x}"
+  let holders (t : Kernel.FdTable) (p : Nat) (name : Nat → String) : String :=
+    let l := (List.range 16).filterMap (fun x =>
+      if t x = some (.rd p) then some ("r@" ++ name x) else if t x = some (.wr p) then some ("w@" ++ name x) else none)
+    if l.isEmpty then "-" else ",".intercalate l
+  let one (p : Nat) (member : Nat) : String :=
+    if member = 0 then "none" else "P:" ++ holders r.parent p role ++ ";C:" ++ holders r.child p toString
+  s!"ft ok=1 out={one 0 r.fdStdOutRead} err={one 1 r.fdStdErrRead} in={one 2 r.fdStdInWrite}"
+
 def stepLine' (pe : PEnv) (ws : List String) : String :=
     match ws with
     | "args" :: o :: words =>
@@ -134,6 +153,10 @@ def stepLine' (pe : PEnv) (ws : List String) : String :=
       | some _ => "exit ok=1"
       | none => "bad-op"
     | ["fds"] => "fds"
+    | ["fdtable", m] =>
+      match m.toNat? with
+      | some m => fdTableLine (m % 8)
+      | none => "bad-op"
     | ["execfail", kind, streams] =>
       -- the launch itself succeeds (vfork); what the failing execvpe leaves behind is the kernel's part
       match streams.toNat? with
